@@ -63,7 +63,8 @@ class ClassTr:
     """Translates methods of one class (or module-level functions when cls is None)."""
 
     def __init__(self, tree, cls, prefix, ctor_params=None, methods=(), drop_args=('rtol', 'tol'),
-                 known=None, skip_attrs=(), const_attrs=None, extra_np1=None):
+                 known=None, skip_attrs=(), const_attrs=None, extra_np1=None, obj_attr=None, none_args=(),
+                 param_calls=None, arg_objs=()):
         self.tree = tree
         self.cls = cls
         self.prefix = prefix
@@ -72,6 +73,13 @@ class ClassTr:
         self.known = dict(known or {})       # external callables: python name -> (coq name, n ctor params to pass?)
         self.skip_attrs = set(skip_attrs)
         self.const_attrs = dict(const_attrs or {})
+        self.obj_attr = obj_attr              # `self.<obj_attr>.X` reads constructor parameter X (pandas accessor classes)
+        self.none_args = set(none_args)       # optional arguments modelled as "not given" (`if a is None: a = e` becomes a let)
+        self.param_calls = dict(param_calls or {})   # `self.m(...)` calls that are free parameters of the model: method -> parameter
+        self.arg_objs = set(arg_objs)         # arguments that are records: `arg.X` becomes the parameter X
+        self.obj_fields = []                  # fields of arg_objs read by the current method, in order of first use
+        self._rbar = set()                    # let-bound names of type Rbar (values built with np.inf)
+        self._inlining = []
         self.classes = {n.name: n for n in tree.body if isinstance(n, ast.ClassDef)}
         self.modfuncs = {n.name: n for n in tree.body if isinstance(n, ast.FunctionDef)}
         self.modconsts = {}
@@ -163,6 +171,54 @@ class ClassTr:
             return []
         return [a.arg for a in init.args.args if a.arg != 'self'] + [a.arg for a in init.args.kwonlyargs]
 
+    # ---- properties (read-only computed attributes), inlined at their use
+    def _property(self, name):
+        if self.cls is None:
+            return None
+        _, fn = self._find_method(name)
+        if fn is None:
+            return None
+        for d in fn.decorator_list:
+            if isinstance(d, ast.Name) and d.id == 'property':
+                return fn
+        return None
+
+    def _inline_property(self, name, fn):
+        if name in self._inlining or len(self._inlining) > 8:
+            raise Unsupported('recursive property ' + name)
+        self._inlining.append(name)
+        try:
+            lets = []
+            r = self.body(strip_doc(fn.body), {}, lets)
+        finally:
+            self._inlining.pop()
+        return '(%s %s)' % (' '.join(lets), r) if lets else r
+
+    # ---- values that may be infinite: np.where(..., np.inf) becomes a Coquelicot Rbar
+    @staticmethod
+    def _is_inf(n):
+        return isinstance(n, ast.Attribute) and isinstance(n.value, ast.Name) and n.value.id == 'np' and n.attr == 'inf'
+
+    def has_inf(self, n, env):
+        for x in ast.walk(n):
+            if self._is_inf(x):
+                return True
+            if isinstance(x, ast.Name) and env.get(x.id) in self._rbar:
+                return True
+        return False
+
+    def expr_rbar(self, n, env):
+        if self._is_inf(n):
+            return 'p_infty'
+        if isinstance(n, ast.UnaryOp) and isinstance(n.op, ast.USub) and self._is_inf(n.operand):
+            return 'm_infty'
+        if isinstance(n, ast.Name) and env.get(n.id) in self._rbar:
+            return env[n.id]
+        if isinstance(n, ast.Call) and isinstance(n.func, ast.Attribute) and isinstance(n.func.value, ast.Name) \
+                and n.func.value.id == 'np' and n.func.attr == 'where' and len(n.args) == 3 and not n.keywords:
+            return '(if %s then %s else %s)' % (self.cond(n.args[0], env), self.expr_rbar(n.args[1], env), self.expr_rbar(n.args[2], env))
+        return '(Finite %s)' % self.expr(n, env)
+
     # ---- expressions
     def attr_name(self, a):
         return 'self_' + a.lstrip('_')
@@ -172,6 +228,8 @@ class ClassTr:
             return lit(n.value)
         if isinstance(n, ast.Name):
             if n.id in env:
+                if env[n.id] in self._rbar:
+                    raise Unsupported('possibly infinite value %s used in arithmetic' % n.id)
                 return env[n.id]
             if n.id in self.modconsts:
                 return lit(self.modconsts[n.id])
@@ -185,7 +243,19 @@ class ClassTr:
                     return self.attr_name(a)
                 if ('_' + a) in self.attrs:      # read-only property `self.nu` -> `self._nu`
                     return self.attr_name('_' + a)
+                prop = self._property(a)
+                if prop is not None:
+                    return self._inline_property(a, prop)
                 raise Unsupported('self.%s is not an attribute assigned in __init__' % a)
+            if self.obj_attr and isinstance(n.value, ast.Attribute) and isinstance(n.value.value, ast.Name) \
+                    and n.value.value.id == 'self' and n.value.attr == self.obj_attr:
+                if n.attr in self.ctor_params:
+                    return ident(n.attr)
+                raise Unsupported('self.%s.%s is not a declared parameter' % (self.obj_attr, n.attr))
+            if isinstance(n.value, ast.Name) and n.value.id in self.arg_objs:
+                if n.attr not in self.obj_fields:
+                    self.obj_fields.append(n.attr)
+                return ident(n.attr)
             if isinstance(n.value, ast.Name) and n.value.id == 'np' and n.attr == 'pi':
                 return 'PI'
             if isinstance(n.value, ast.Name) and n.value.id == 'np' and n.attr == 'inf':
@@ -284,10 +354,30 @@ class ClassTr:
     # ---- statements
     def body(self, stmts, env, lets):
         """Translate a straight-line body; returns the Coq expression of the returned value."""
+        stmts = self.flatten(stmts)
         for i, st in enumerate(stmts):
+            if isinstance(st, ast.If) and self._is_none_test(st.test) is not None and not st.orelse and len(st.body) == 1 \
+                    and isinstance(st.body[0], ast.Assign) and len(st.body[0].targets) == 1 \
+                    and isinstance(st.body[0].targets[0], ast.Name) and st.body[0].targets[0].id == self._is_none_test(st.test):
+                a = self._is_none_test(st.test)      # `if a is None: a = e`
+                if a in self.none_args:
+                    nm = ident(a)
+                    lets.append('let %s := %s in' % (nm, self.expr(st.body[0].value, env)))
+                    env[a] = nm
+                    continue
+                if a in env:                         # the argument is given explicitly in this model
+                    continue
+                raise Unsupported('optional argument ' + a)
             if isinstance(st, ast.Assign) and len(st.targets) == 1:
                 t = st.targets[0]
                 if isinstance(t, ast.Name):
+                    if self.has_inf(st.value, env):
+                        nm = ident(t.id)
+                        lets.append('let %s := %s in' % (nm, self.expr_rbar(st.value, env)))
+                        env[t.id] = nm
+                        self._rbar.add(nm)
+                        continue
+                    self._rbar.discard(ident(t.id))
                     v = self.expr(st.value, env)
                     nm = ident(t.id)
                     lets.append('let %s := %s in' % (nm, v))
@@ -344,9 +434,29 @@ class ClassTr:
                 v = st.value
                 if isinstance(v, ast.Tuple):
                     return '(' + ', '.join(self.expr(x, env) for x in v.elts) + ')'
+                if self.has_inf(v, env):
+                    return self.expr_rbar(v, env)
                 return self.expr(v, env)
             raise Unsupported('statement ' + ast.unparse(st)[:70])
         raise Unsupported('no return statement')
+
+    @staticmethod
+    def _is_none_test(t):
+        if isinstance(t, ast.Compare) and len(t.ops) == 1 and isinstance(t.ops[0], ast.Is) and isinstance(t.left, ast.Name) \
+                and isinstance(t.comparators[0], ast.Constant) and t.comparators[0].value is None:
+            return t.left.id
+        return None
+
+    def flatten(self, stmts):
+        """`with np.errstate(...):` only silences warnings: its body is spliced in."""
+        out = []
+        for st in stmts:
+            if isinstance(st, ast.With) and all(ast.unparse(it.context_expr).startswith('np.errstate(') and it.optional_vars is None
+                                                for it in st.items):
+                out.extend(self.flatten(st.body))
+            else:
+                out.append(st)
+        return out
 
     def method(self, name):
         sup = name.startswith('super_')
@@ -360,11 +470,15 @@ class ClassTr:
                 raise Unsupported('method %s not found in %s' % (name, self.cls))
         args = [a.arg for a in fn.args.args if a.arg != 'self'] + \
                [a.arg for a in fn.args.kwonlyargs if a.arg not in self.drop_args]
-        args = [a for a in args if a not in self.drop_args]
+        args = [a for a in args if a not in self.drop_args and a not in self.none_args and a not in self.arg_objs]
         env = {a: ident(a) for a in args}
+        self._rbar = set()
+        self.obj_fields = []
+        self._used_param_calls = set()
         lets = ['let %s := %s in' % (self.attr_name(a), e) for a, e in self.attr_lets]
         ret = self.body(strip_doc(fn.body), env, lets)
-        params = [ident(p) for p in self.ctor_params] + [ident(a) for a in args]
+        params = [ident(p) for p in self.ctor_params] + [ident(a) for a in args] + [ident(a) for a in self.obj_fields] \
+            + [p for p in dict.fromkeys(self.param_calls.values()) if p in self._used_param_calls]
         out = 'Definition %s%s %s :=\n' % (self.prefix, name, ' '.join('(%s : R)' % p for p in params))
         for l in lets:
             out += '  %s\n' % l
@@ -390,4 +504,6 @@ def translate_module(src_path, items, requires=()):
             text, params = tr.method(m)
             out += text
             sigs[tr.prefix + m] = params
+    if 'p_infty' in out or 'Finite' in out:
+        out = out.replace('From PL Require Import Common.RPrelude.\n', 'From Coquelicot Require Import Rbar.\nFrom PL Require Import Common.RPrelude.\n', 1)
     return out, sigs
